@@ -6,7 +6,10 @@ the value written back on exit originates from a read of that state made on entr
 unconditionally (not depending on what the executed code left behind) and on every exit; the
 shared output sink is re-opened when a test case closed it; SUT random generators are reseeded
 before - not after - every execution and Pynguin's own generator is excluded; the executor
-restores the streams on its timeout path.  Hidden state of the module under test is not decided.
+restores the streams on its timeout path.  By interpretation over a model of the process: entering
+with the shared sink usable / closed / detached yields one usable shared sink; enter -> a test case
+that rebinds stdin, stdout, stderr, raises the logging threshold and the root level and closes fds
+0-2 -> restore() leaves every facet as before.  Hidden state of the module under test is not decided.
 """
 
 from __future__ import annotations
